@@ -42,9 +42,21 @@ type Emitter struct {
 	discard bool
 	declared map[string]bool
 	inQuant  int
+	stores   map[string]*storeRec
 }
 
-func newEmitter() *Emitter { return &Emitter{declared: map[string]bool{}} }
+// storeRec remembers that heap version name = store(prev, base, idx.., val),
+// which lets loads simplify read-over-write syntactically.
+type storeRec struct {
+	prev string
+	base string
+	idx  []string
+	val  string
+}
+
+func newEmitter() *Emitter {
+	return &Emitter{declared: map[string]bool{}, stores: map[string]*storeRec{}}
+}
 
 func (e *Emitter) fresh(hint string) string {
 	e.n++
